@@ -8,7 +8,7 @@
    The .dat content is NOT shipped: both sides regenerate it from (seed, size) with
    the LCG of model/EC.v (lcg_bytes). *)
 From Coq Require Import List ZArith NArith Bool.
-From SW Require Export base.Verdict model.EC check.C06Bytes.
+From SW Require Export base.Verdict check.C06Vol model.EC check.C06Bytes.
 Import ListNotations.
 Local Open Scope Z_scope.
 
@@ -56,6 +56,28 @@ Record big_obs := {
   bg_first_diff : list Z                (* per regenerated shard: first offset where the whole file differs from the original one, -1 = identical (compared on the Go side) *)
 }.
 
+(* the production entry points on a real EC volume with all 14 shards local:
+   EcVolume.LocateEcShardNeedle (offset, size from the .ecx; intervals from
+   DataShardsCount * shard file size and GetActualSize) and Store.ReadEcShardNeedle *)
+Record ecread_one := {
+  e_key : Z;
+  e_found : bool;                       (* LocateEcShardNeedle returned no error *)
+  e_off : Z; e_size : Z;                (* offset.ToActualOffset(), size *)
+  e_ivs : list interval;
+  e_res : Z;                            (* Store.ReadEcShardNeedle: 0 ok, 1 error (deleted / not found / ...) *)
+  e_len : Z; e_data : list byte;        (* n.Data: length, and the bytes (first and last 24 when longer than 48) *)
+  e_twin_res : Z; e_twin_len : Z; e_twin_data : list byte;   (* Store.ReadVolumeNeedle before the encoding *)
+  e_whole_equal : bool                  (* the two payloads are equal as a whole (compared on the Go side) *)
+}.
+Record ecread_obs := {
+  er_large : Z; er_small : Z;
+  er_dat_size : Z;
+  er_gen_ok : bool;                     (* WriteEcFiles and WriteSortedFileFromIdx returned nil *)
+  er_lens : list Z;                     (* 14 shard file lengths *)
+  er_mounted : bool;                    (* the new Store found the EC volume *)
+  er_reads : list ecread_one
+}.
+
 Record case := {
   c_large : Z; c_small : Z; c_buf : Z;
   c_rbuf : Z;                           (* buffer size of rebuildEcFiles = ErasureCodingSmallBlockSize *)
@@ -70,7 +92,9 @@ Record case := {
   c_decoded : option (list byte);       (* None = error *)
   c_reads : list read_obs;
   c_rebuilds : list rebuild_obs;
-  c_big : list big_obs
+  c_big : list big_obs;
+  c_ecreads : list ecread_obs;
+  c_vol : option C06Vol.vol_obs         (* decode + mount of a real volume (check/C06Vol.v) *)
 }.
 
 (* ---------- equality tests ---------- *)
@@ -191,6 +215,33 @@ Definition check_big (b : big_obs) : bool * bool * bool :=
   let nontriv := (bg_rbuf b <? len) && existsb (fun o => bg_rbuf b <=? o) offs && negb (Nat.eqb (length lost) 0) in
   (corr, prop, nontriv).
 
+(* needle.GetActualSize(size, Version3): header 16 + body + checksum 4 + timestamp 8, padded
+   to 8 (PaddingLength = 8 - (x mod 8), i.e. 1..8 bytes) *)
+Definition actual_size3 (size : Z) : Z :=
+  let x := 16 + size + 4 + 8 in x + (8 - x mod 8).
+
+Definition check_ecread (e : ecread_obs) : bool * bool * bool :=
+  let L := er_large e in let S := er_small e in let D := er_dat_size e in
+  let len := shard_len L S D in
+  let one (r : ecread_one) : bool * bool :=
+    let a := actual_size3 (e_size r) in
+    let corr :=
+      if e_found r then
+        (0 <=? e_off r) && (0 <=? e_size r) && (e_off r + a <=? D) &&
+        all2 interval_eqb (locate_data L S (10 * len) (e_off r) a) (e_ivs r) &&
+        (e_res r =? 0)                       (* c06_read_exact: the record bytes come back, the needle parses *)
+      else negb (e_res r =? 0) in
+    let prop :=
+      if e_twin_res r =? 0
+      then (e_res r =? 0) && (e_len r =? e_twin_len r) && bytes_eqb (e_data r) (e_twin_data r) && e_whole_equal r
+      else negb (e_res r =? 0) in
+    (corr, prop) in
+  let rs := map one (er_reads e) in
+  let corr := (L =? 1073741824) && (S =? 1048576) && er_gen_ok e && er_mounted e &&
+              zlist_eqb (repeat len 14) (er_lens e) && forallb fst rs in
+  let prop := er_gen_ok e && er_mounted e && forallb snd rs in
+  (corr, prop, existsb (fun r => e_found r && (e_twin_res r =? 0)) (er_reads e)).
+
 Definition check (c : case) : outcome :=
   let L := c_large c in let S := c_small c in let D := c_dsize c in
   let dat := lcg_bytes (Z.to_nat D) (c_seed c) in
@@ -199,6 +250,11 @@ Definition check (c : case) : outcome :=
   let rd := map (check_read c dat mshards) (c_reads c) in
   let rbs := map (check_rebuild c mshards) (c_rebuilds c) in
   let bigs := map check_big (c_big c) in
+  let ers := map check_ecread (c_ecreads c) in
+  let vol := match c_vol c with
+             | Some v => C06Vol.check_vol v
+             | None => {| o_corr := true; o_prop := true; o_trig := None; o_nontrivial := false |}
+             end in
   let corr_layout :=
     c_gen_ok c && c_colwise c && c_wd_sync c &&
     zlist_eqb (repeat slen 14) (c_shard_lens c) &&
@@ -207,10 +263,14 @@ Definition check (c : case) : outcome :=
     all2 bytes_eqb mshards (c_data_shards c) in
   let corr_dec := if c_decode_run c then obytes_eqb (write_dat L S mshards D) (c_decoded c) else true in
   let prop_dec := if c_decode_run c then obytes_eqb (Some dat) (c_decoded c) else true in
-  {| o_corr := corr_layout && corr_dec && forallb fst rd && forallb fst rbs && forallb (fun x => fst (fst x)) bigs;
-     o_prop := c_gen_ok c && prop_dec && forallb snd rd && forallb snd rbs && forallb (fun x => snd (fst x)) bigs;
-     o_trig := None;
+  let ec_prop := c_gen_ok c && prop_dec && forallb snd rd && forallb snd rbs && forallb (fun x => snd (fst x)) bigs &&
+                 forallb (fun x => snd (fst x)) ers in
+  {| o_corr := corr_layout && corr_dec && forallb fst rd && forallb fst rbs && forallb (fun x => fst (fst x)) bigs &&
+               forallb (fun x => fst (fst x)) ers && o_corr vol;
+     o_prop := ec_prop && o_prop vol;
+     (* a known finding only when the decode + mount part is the ONLY part whose property fails *)
+     o_trig := if ec_prop && negb (o_prop vol) then o_trig vol else None;
      o_nontrivial := ((0 <? D) && (negb (Nat.eqb (length (c_reads c)) 0) || negb (Nat.eqb (length (c_rebuilds c)) 0)))
-                     || existsb snd bigs |}.
+                     || existsb snd bigs || existsb snd ers || o_nontrivial vol |}.
 
 Definition summarize_cases (l : list case) : summary := summarize check l.
